@@ -590,6 +590,9 @@ package main
 //@   nopanic
 //@   safe
 //@   assert at call store.TopicsPersistenceInterface.Delete#1 [C03] paused_before_delete: topicBlocked(t)
+// (C08: loaded or not, {del what=topic} by one of two p2p participants removes that participant's subscription only: the
+// offline branch counts ALL subscriptions of the topic - only a channel reader's request looks at the requester's alone)
+//@   assert at call store.TopicsPersistenceInterface.GetSubs [C06,C08] all_subscriptions_counted: $2 != nil ==> types.IsChannel(msg.Original)
 // (C01: a topic is taken out of the hub's table only once it refuses publishes - otherwise the instance being unloaded
 // and the instance loaded next would both number messages from the same stored counter)
 //@   assert at call topicDel [C01,C03] blocked_before_unregistered: topicBlocked(t)
@@ -1218,6 +1221,9 @@ package main
 // (the owner's {del topic} is executed by the hub and never reaches the topic)
 //@   ensures [C13] answered: old(msg.init && t.owner != asUid) ==> outTotal > old(outTotal)
 //@ func (t *Topic) replyDelCred(sess *Session, asUid types.Uid, authLvl auth.Level, msg *ClientComMessage) (err error)
+// (C19: after a credential is deleted the cached tags are the user's remaining tags: what is compared is the cached list
+// against the new list, in that order - "removed" are cached tags that are no longer there)
+//@   assert at call stringSliceDelta [C19] cached_against_new: ref($1) == ref(t.tags) && len($1) == len(t.tags) && ref($2) == ref(tags) && len($2) == len(tags)
 //@   requires [C13] t != nil && sess != nil && msg != nil && msg.Del != nil
 //@   modifies inferred
 //@   ensures [C13] answered: outTotal > old(outTotal)
@@ -1360,3 +1366,22 @@ package main
 // (the eviction of the user's sessions that precedes a suspension has an unconstrained frame, so the clause names the
 // request itself: the last thing put on the hub's queue is a request made by this call, for this user and this state)
 //@   ensures [C03] hub_told_of_every_change: changed ==> last(globals.hub.userStatus) != nil && fresh(last(globals.hub.userStatus)) && last(globals.hub.userStatus).forUser == uid && last(globals.hub.userStatus).state == user.State
+
+// Round 7.
+// C10: a contact is enabled for incoming presence only when P is in BOTH modes of the subscription - also after 'me' is
+// reloaded (while it stays loaded the "off+dis" / "?unkn+en" commands keep this in step).
+//@ func (t *Topic) loadContacts(uid types.Uid) (err error)
+//@   requires [C10] t != nil
+//@   modifies inferred
+//@   loop 1
+//@     iterates [C10] enabled_by_effective_presence: called("addToPerSubs") == prev(called("addToPerSubs")) + 1
+//@   assert at call addToPerSubs [C10] enabled_iff_P_in_both: $3 == (((subs[i].ModeGiven & subs[i].ModeWant) & types.ModePres) != 0) && !$2
+
+// C17: a node list from the leader always replaces the ring - whatever its size: the ring is rebuilt from the list given
+// (or from the configured nodes when none is given) on every call.
+//@ func (c *Cluster) rehash(nodes []string) (keys []string)
+//@   requires [C17] c != nil
+//@   modifies inferred
+//@   ensures [C17] ring_always_rebuilt: c.ring != nil
+//@   ensures [C17] ring_filled_once: called("Add") == old(called("Add")) + 1
+//@   ensures [C17] from_the_list_given: nodes != nil ==> len(keys) == len(nodes)
